@@ -184,7 +184,7 @@ def report_sweeps(chk, mode, results, expect_exn):
             out = p.get("out", "?")
             kinds = classify(p, r["leakinfo"])
             if out not in expect_exn: kinds.append("other-exception:" + out)
-            site = c14_fault.frames_of(p)[0] if c14_fault.frames_of(p) else "?"
+            site = "<".join(c14_fault.frames_of(p)[:2]) if c14_fault.frames_of(p) else "?"      # requesting function and its caller
             chk.count(1, key=(mode, fam, site, p.get("layer")))
             for kd in kinds:
                 nbad += 1; st["by_kind"][kd] = st["by_kind"].get(kd, 0) + 1
@@ -193,7 +193,7 @@ def report_sweeps(chk, mode, results, expect_exn):
                              "replay_cmd": "build/c14-bin/run_fault_mpz_* %s %s 100000 ng %s" % (mode, r["name"], p.get("k"))})
         for p in r["crashes"]:
             nbad += 1; st["crashes"] += 1
-            site = c14_fault.frames_of(p)[0] if c14_fault.frames_of(p) else "?"
+            site = "<".join(c14_fault.frames_of(p)[:2]) if c14_fault.frames_of(p) else "?"
             kd = ("hang-" if "timeout" in p.get("how", "") else "crash-") + p.get("phase", "?")
             st["by_kind"][kd] = st["by_kind"].get(kd, 0) + 1
             agg.add({"mode": mode, "kind": kd, "site": site, "family": fam},
